@@ -14,7 +14,7 @@ From Coq Require Import ZArith List String.
 From LV Require Import Base.Conc Base.Events Base.Lin Spec.Specs.
 From LV Require Import Model.MichaelList Proofs.MichaelListBase Proofs.MichaelListInv Proofs.MichaelListProofs
                        Proofs.MichaelListFullProofs.
-From LV Require Model.LazyList Model.IterList Proofs.LazyListDefs Proofs.IterListDefs.
+From LV Require Model.LazyList Model.IterList Proofs.LazyListDefs Proofs.IterListDefs Proofs.LazyListProofs.
 Import ListNotations.
 Local Open Scope Z_scope.
 
@@ -76,18 +76,24 @@ Theorem C13_mlist_linearizable :
 Proof. exact mlist_linearizable. Qed.
 Print Assumptions C13_mlist_linearizable.
 
-(** NOT PROVED (statements only): the other two list kinds.  Their step models LV.Model.LazyList and
-    LV.Model.IterList are tied to the real code by step correspondence (checks/C13.py) and their real histories
-    are decided by the verified lincheck, but no invariant proof exists yet.
-    LazyList: needs the lock-ownership invariant (only the holder of a node's spin lock writes its next / mark) and a
-    ghost successor for a node between the two stores of unlink_node.
-    IterableList: needs the neighbour-marking protocol of link_data (both data cells frozen) and the find_prev
-    re-check against ABA on a null predecessor. *)
-Definition lazy_sorted_nodup_statement : Prop :=
+(** LazyList (step model LV.Model.LazyList of cds::intrusive::LazyList<gc::HP>, tied to the code by step correspondence):
+    "no key is present twice" for every number of threads, every client program and EVERY schedule.
+    [lazy_keys g] = the keys met when following m_pNext from the node after m_Head through unmarked nodes, up to
+    m_Tail or the first marked node (a node between the two stores of unlink_node is marked while its predecessor
+    still points to it).  Invariant (Proofs/LazyListInv.v): only the holder of a node's spin lock writes its m_pNext /
+    mark, an unlinked node is written by its owner only, and the logical chain (physical m_pNext, except a ghost
+    successor for the node in the hole of unlink_node) runs from m_Head to m_Tail with strictly increasing keys. *)
+Theorem C13_lazy_sorted_nodup :
   forall (fuel sf : nat) (ic : bool) (ths : list (list (list Z))) c,
     Conc.reach (LazyList.init_cfg fuel sf ic ths) c ->
     LazyListDefs.increasing (LazyListDefs.lazy_keys (Conc.shared c)).
+Proof. exact LazyListProofs.lazy_sorted_nodup. Qed.
+Print Assumptions C13_lazy_sorted_nodup.
 
+(** NOT PROVED (statement only): IterableList.  Its step model LV.Model.IterList is tied to the real code by step
+    correspondence (checks/C13.py) and its real histories are decided by the verified lincheck, but no invariant
+    proof exists yet: it needs the neighbour-marking protocol of link_data (both data cells frozen) and the
+    find_prev re-check against ABA on a null predecessor. *)
 Definition iter_sorted_nodup_statement : Prop :=
   forall (fuel sf : nat) (ic : bool) (ths : list (list (list Z))) c,
     Conc.reach (IterList.init_cfg fuel sf ic ths) c ->
